@@ -138,6 +138,14 @@ impl<'c> Tr<'c> {
                 }
             }
             Expr::Try(t) if place_name(&t.expr).is_some() => self.expr(&t.expr),
+            // a field the configuration declares as a projection of a record value (key `.field` in `methods`)
+            Expr::Field(f) if matches!(&f.member, syn::Member::Named(i) if self.cfg.methods.iter().any(|(k, _)| *k == format!(".{i}"))) => {
+                let syn::Member::Named(i) = &f.member else { unreachable!() };
+                let key = format!(".{i}");
+                let tpl = self.cfg.methods.iter().find(|(k, _)| *k == key).map(|(_, t)| *t).unwrap();
+                let r = self.expr(&f.base);
+                fill(tpl, &r, &[])
+            }
             Expr::Path(_) | Expr::Field(_) => match place_name(e) {
                 Some(n) => n,
                 None => {
